@@ -22,6 +22,9 @@ type engW struct {
 // answered by a difference during the event, and never passes an undelivered, uncovered position.
 func judgeEngine(sc updsim.Scenario, out *updsim.Out) kit.Result {
 	w, _, err := updsim.Play(sc)
+	if w != nil {
+		defer w.Close()
+	}
 	if err != nil {
 		return kit.Bad("harness", "%v", err)
 	}
@@ -135,6 +138,11 @@ func enginePlans(thorough bool) []enginePlan {
 			add(log, d, func(c *updsim.WorldCfg) { c.V0 = v0 })
 		}
 	}
+	// channels that are neither tracked nor stored when the client starts (created by the first push)
+	for _, log := range seqs([]string{"cmsg@2", "cdel@2"}, 1, n) {
+		add(log, d, func(c *updsim.WorldCfg) { c.Untracked = []int{2} })
+	}
+	add([]string{"cmsg", "cmsg@2", "cmsg@2"}, d, func(c *updsim.WorldCfg) { c.Untracked = []int{2} })
 	// channel sequences with explicit interleaving of the worker's queue and the main loop
 	chans := [][]string{{"cmsg"}, {"cmsg", "cmsg"}, {"cmsg", "cdel"}, {"cdel", "cmsg"}, {"msg", "cmsg"}, {"cmsg", "msg", "cmsg"}, {"cmsg", "cmsg@2"}}
 	if thorough {
